@@ -8,6 +8,7 @@
 From Coq Require Import ZArith List Bool.
 From BV Require Import Lib.Cases Model.LaxSem Model.Restart Model.Pool
      Proofs.PoolJobs Proofs.PoolInv Proofs.PoolCor.
+From BV Require Import Model.PoolSys Proofs.PoolSysProofs.
 From BV Require Gen.G_pool_shape.
 Import ListNotations.
 Open Scope Z_scope.
@@ -94,6 +95,48 @@ Theorem C01_put_failure_resolves : forall s j x i k,
               /\ ready y = true /\ value y = Some PPutFailed.
 Proof. exact put_failure_resolves. Qed.
 Print Assumptions C01_put_failure_resolves.
+
+(* ---- completion (the liveness half), for the closed system in which nothing goes wrong:
+   Model/PoolSys.v composes the pool model with a client making [n] apply_async calls, the task
+   queue and pipe, workers that acknowledge and then answer each task, and the result pipe,
+   all FIFO; no worker dies, no limit fires.  For EVERY schedule of that system: it is at
+   most 6 n steps long; it is never stuck before the end; and where nothing can move any more,
+   every one of the n jobs is resolved, with its own result, its success callback run exactly
+   once and no error callback, and nothing is left in any queue.  (With failures, resolution
+   is by the theorems above and C04/C05; they are about the open model, to which the parent
+   of every reachable closed-system state belongs: C01_closed_system_is_the_open_model.) *)
+Theorem C01_completion_when_nothing_fails : forall c n sched y,
+    1 <= c_n c -> srun (sinit c n) sched = Some y -> (forall a, sys_step y a = None) ->
+    (length (jobs (par y)) = n
+     /\ (forall j, 0 <= j < Z.of_nat n ->
+           exists x, get_job (par y) j = Some x /\ ready x = true
+                     /\ value x = Some (PValue (tag_of j)) /\ cb_succ x = 1 /\ cb_err x = 0)
+     /\ (putlocks (par y) = true -> LaxSem.value (sem (par y)) = LaxSem.bound (sem (par y)))
+     /\ todo y = 0%nat /\ taskq y = [] /\ inq y = [] /\ outq y = [] /\ somes (wk y) = [])
+    /\ (length sched <= 6 * n)%nat.
+Proof. exact every_maximal_schedule_completes. Qed.
+Print Assumptions C01_completion_when_nothing_fails.
+
+Theorem C01_never_stuck_before_the_end : forall c n y,
+    1 <= c_n c -> sreach c n y -> (0 < measure y)%nat -> exists a y', sys_step y a = Some y'.
+Proof. intros c n y Hn Hr. apply (progress n). exact (sreach_inv c n y Hn Hr). Qed.
+Print Assumptions C01_never_stuck_before_the_end.
+
+Theorem C01_every_step_makes_progress : forall y a y',
+    sys_step y a = Some y' -> (measure y' < measure y)%nat.
+Proof. exact step_decreases. Qed.
+Print Assumptions C01_every_step_makes_progress.
+
+Theorem C01_closed_system_is_the_open_model : forall c n y,
+    sreach c n y -> exists tr, par y = run c tr.
+Proof. exact sreach_is_run. Qed.
+Print Assumptions C01_closed_system_is_the_open_model.
+
+Example C01_closed_system_witness :
+  let c := mkcfg 2 None None None None 1 true false in
+  let r := auto_run 100 [0;1;2;3;4;5;6;0;3;5;1;2;4;6;0;1;2;3;4;5;6;0;3;5;1;2;4;6]%nat (sinit c 4) in
+  srun (sinit c 4) (snd r) = Some (fst r) /\ measure (fst r) = 0%nat /\ length (snd r) = 24%nat.
+Proof. exact closed_system_runs. Qed.
 
 (* non-vacuity: a history in which a job is resolved by a time limit, its late result and
    a duplicate are ignored, and a second job is lost with its worker *)
